@@ -1,6 +1,6 @@
 SPECIFICATION Spec
 CONSTANTS
-  Universe = "mix"
+  Universe = "mixinl"
   Emit = TRUE
   SepMode = "content"
 INVARIANTS RoundTrip EmitInv
